@@ -263,7 +263,7 @@ def descend : List Str → List (List Str × Str) → List (List Str × Str)
 
 theorem setAllP_nodeAt : ∀ (gs : List Str) (ps : List (List Str × Str)) (t t' : Tree), setAllP ps t = .ok t' →
     setAllP (descend gs ps) (nodeAt gs t) = .ok (nodeAt gs t')
-  | [], ps, t, t', h => h
+  | [], _, _, _, h => h
   | g :: gs, ps, t, t', h => setAllP_nodeAt gs _ _ _ (setAllP_child g ps t t' h)
 
 /-! ### applyAll with overwrite = true is a sequence of `set`s guarded by the duplicate test -/
